@@ -412,6 +412,28 @@ func monC10() mc.Monitor {
 				}
 			}
 		}
+		// an application with outstanding asks or live real allocations is never Completed: judged on the state the
+		// application was in when a timer moved it to Completed (termination itself drops what was left)
+		if st.Op.K == "TIMER_STATE" || st.Op.K == "TIMER_STATE_LATE" {
+			pa, qa := pre.Apps[st.Op.A], post.Apps[st.Op.A]
+			if pa != nil && qa != nil && pa.State != "Completed" && qa.State == "Completed" {
+				counts["C10.completed-transition"]++
+				outstanding, real := 0, 0
+				for _, ask := range pa.Asks {
+					if !ask.Allocated {
+						outstanding++
+					}
+				}
+				for _, al := range pa.Allocs {
+					if !al.Ph {
+						real++
+					}
+				}
+				if outstanding > 0 || real > 0 {
+					out = append(out, v("C10", "completed-with-work", "at-transition", "application %s went from %s to Completed on %s while it had %d outstanding ask(s) and %d live real allocation(s)", st.Op.A, pa.State, st.Op, outstanding, real))
+				}
+			}
+		}
 		// undisturbed, Completing becomes Completed when the timer fires
 		if st.Op.K == "TIMER_STATE" {
 			if pa := pre.Apps[st.Op.A]; pa != nil && pa.State == "Completing" && len(pa.Allocs) == 0 {
